@@ -165,6 +165,12 @@ class QueueFamily(common.Family):
     if not order_ok(obs['gets'], cfg['P']):
       res.append(v('fifo', 'dequeue-order', f"gets={obs['gets']}"))
     for c, g in enumerate(obs['got']):
+      if cfg['modes'][c] == 'aiter_shared':
+        # Coroutines that share one async iterator are handed the elements in
+        # the order their batches complete, not in the order they were
+        # dequeued: the order seen by ONE of them is not determined (nothing is
+        # lost or doubled, which is what is checked for this mode).
+        continue
       if not order_ok(g, cfg['P']):
         res.append(v('fifo', f"consumer-order:{cfg['modes'][c]}", f'{g}'))
     exp_ret = common.multiset(expected_returns(cfg))
@@ -224,7 +230,10 @@ class QueueFamily(common.Family):
     return ()
 
 
-AMODES = ('get', 'batch_nb', 'batch_b', 'iter', 'aget', 'abatch', 'aiter')
+# (aiter_shared: the coroutine consumers of that mode all pull from ONE async
+# dequeue iterator)
+AMODES = ('get', 'batch_nb', 'batch_b', 'iter', 'aget', 'abatch', 'aiter',
+          'aiter_shared', 'aiter_shared')
 
 
 class AsyncQueueFamily(common.Family):
@@ -236,18 +245,25 @@ class AsyncQueueFamily(common.Family):
 
   def gen(self, rng, tier):
     C = rng.choice([1, 2, 2, 3])
+    modes = [rng.choice(AMODES) for _ in range(C)]
+    shared = C > 1 and rng.random() < 0.3
+    if shared:
+      # every consumer is a coroutine pulling from the one shared iterator
+      modes = ['aiter_shared'] * C
     return {
         'P': 1,
-        'items': [rng.randrange(0, 7)],
+        'items': [rng.randrange(0, 7) if not shared else rng.randrange(3, 9)],
         'rets': [rng.random() < 0.6],
         'C': C,
-        'modes': [rng.choice(AMODES) for _ in range(C)],
+        'modes': modes,
         'ks': [rng.choice([0, 1, 2, 3]) for _ in range(C)],
         'cap': rng.choice([0, 0, 1, 2, 3]),
         'yield_between': rng.random() < 0.5,
+        'cyield': rng.random() < 0.6,
         'extra_workers': rng.choice([0, 1, 2]),
-        'sim': {'fine': rng.random() < 0.2,
-                'stay': rng.choice([0.0, 0.0, 0.5, 0.8])},
+        'sim': dict({'fine': rng.random() < 0.2,
+                     'stay': rng.choice([0.0, 0.0, 0.5, 0.8])},
+                    **({'pct': rng.choice([2, 3])} if rng.random() < 0.5 else {})),
     }
 
   def drive(self, cfg, sim):
@@ -306,6 +322,8 @@ class AsyncQueueFamily(common.Family):
       except Exception as e:  # pylint: disable=broad-exception-caught
         ends[c] = ['exc', type(e).__name__, str(e)]
 
+    shared_ait = []
+
     async def consume_async(c):
       mode = cfg['modes'][c]
       try:
@@ -313,6 +331,15 @@ class AsyncQueueFamily(common.Family):
           it = q.__aiter__()
           while True:
             got[c].append(await it.__anext__())
+        if mode == 'aiter_shared':
+          if not shared_ait:
+            shared_ait.append(q.__aiter__())
+          it = shared_ait[0]
+          while True:
+            got[c].append(await it.__anext__())
+            if cfg.get('cyield'):
+              # the consumer does some asynchronous work per element
+              await asyncio.sleep(0)
         while True:
           if mode == 'aget':
             got[c].append(await q.async_get())
